@@ -116,6 +116,15 @@ def check(run):
             extra.append(faults.line(n, tb, {"k": "text", "i": k}, t + b"\r\n"))
             extra.append(faults.line(n, tb, {"k": "text", "i": k + 1}, b"<C>\r\nk\tv\r\n" + t + b"\r\nk2\tv2\r\n"))
             k += 2
+    # the same for the list grammar: every line of up to 3 characters over {',', '#', a, 1, -}, the empty line included, between
+    # valid rows, with LF and with CRLF line ends
+    tbx = {"id": "text", "entry": "exl", "extra": {}}
+    for ln in range(0, 4):
+        for chars in itertools.product(b",#a1-", repeat=ln):
+            t = bytes(chars)
+            extra.append(faults.line(n, tbx, {"k": "text", "i": k}, b"EXLT,2\nfoo,1\n" + t + b"\nbar,2\n"))
+            extra.append(faults.line(n, tbx, {"k": "text", "i": k + 1}, b"EXLT,2\r\n" + t + b"\r\nbar,2"))
+            k += 2
     for entry, texts in (("exl", [b"", b"EXLT", b"EXLT,", b"EXLT,x", b",", b",,,,", b"a,99999999999", b"\xff,1", b"EXLT,2\n#,\n,5\n"]),
                          ("patchlist.boot", [b"", b"\r\n", b"\r\n" * 5, b"\r\n" * 8, b"X-Patch-Length: ", b"X-Patch-Length: \r\n", b"a\r\nb\r\nc\r\nd\r\ne\r\nf\r\ng\r\nh\r\n",
                                              b"1\r\n2\r\n3\r\n4\r\n5\r\nx\ty\r\n7\r\n8\r\n", b"1\r\n2\r\n3\r\n4\r\n5\r\n\t\t\t\t\t\r\n7\r\n8\r\n"]),
